@@ -467,7 +467,7 @@ class ParseMachine(StateMachine):
         # parse error like any other, not an internal one.
         try:
             arg.value = value
-        except ValueError as e:
+        except (ValueError, TypeError) as e:
             self.error("Invalid value {!r} for {!r}: {}".format(value, arg, e))
 
     def error(self, msg: str) -> None:
